@@ -884,6 +884,9 @@ impl Property for C13 {
             }
         }
         out.probe("further_log_archive_writes_recorded", (extra_points.len() / 3) as u64);
+        if std::env::var("VERIF_DEBUG_EFFECTS").is_ok() {
+            out.advisories.push(format!("effects: {:?}", effs));
+        }
         let mut seen: BTreeMap<String, usize> = BTreeMap::new();
         for p in &rtr.points {
             let n = seen.entry(p.name.clone()).or_insert(0);
@@ -894,7 +897,11 @@ impl Property for C13 {
             points.push(CrashPoint::AtStep { n });
         }
         let total_points = points.len();
-        out.trace.push(format!("recorded {} filesystem effects, {} points, {} steps -> {} crash points", effects, rtr.points.len(), rtr.steps, total_points));
+        // the number of effects is not part of the canonical trace: what a run has to wipe in a slot that an earlier,
+        // killed run left behind depends on how far that run's compressor threads had got when it died
+        out.trace.push(format!("recorded filesystem effects, {} points, {} steps", rtr.points.len(), rtr.steps));
+        out.probe("filesystem_effects_recorded", effects as u64);
+        out.probe("crash_points_enumerated", total_points as u64);
         if !sc.only_points.is_empty() {
             points = sc.only_points.clone();
         } else if sc.max_points == 0 {
